@@ -54,6 +54,13 @@ def base_cfg(name, sc, **over):
     return cfg
 
 
+def prefill(buf, base_cls, sc, action):
+    """Scenario P: experience of an earlier run, written through the base class (not recorded)."""
+    for i in range(int(sc.get("prefill", 0))):
+        base_cls.add_sample(buf, observation=np.asarray([900 + i, 0, 0], dtype=np.float32), action=action, reward=0.25,
+                            next_observation=np.asarray([900 + i, 1, 0], dtype=np.float32), termination=False)
+
+
 def buffer_rows(buf):
     """Decoded contents of a (uniform / LAP / PER) ring buffer: one record per valid slot."""
     from .probes import _act
@@ -147,6 +154,7 @@ def _dqn_common(name, sc, mod, train, extra_kwargs, uses_target, per=False, has_
     opt = nnx.Optimizer(q_net, optax.adam(0.01), wrt=nnx.Param)
     base = rb.PrioritizedReplayBuffer if per else rb.ReplayBuffer
     buf = recording_buffer(base, rec, sc["cap"], discrete_actions=True)
+    prefill(buf, base, sc, 1)
     logger = recording_logger(rec)
     rec.watch_module("q", q_net)
     kwargs = dict(batch_size=sc["batch"], total_timesteps=sc["budget"], gamma=0.5, seed=sc["seed"], logger=logger, global_step=sc.get("start", 0), progress_bar=False)
@@ -283,6 +291,9 @@ def _ddpg_like(name, sc, train, double_q, extra, lap=False):
     qopt = nnx.Optimizer(q, optax.adam(0.01), wrt=nnx.Param)
     ptgt, qtgt = nnx.clone(policy), nnx.clone(q)
     buf = recording_buffer(rb.LAP if lap else rb.ReplayBuffer, rec, sc["cap"])
+    # scenario P: the buffer handed in already holds experience of an earlier run (written through the base class,
+    # not recorded) while the step count starts at 0 - the documented warm-up counts steps, not stored rows
+    prefill(buf, rb.LAP if lap else rb.ReplayBuffer, sc, np.zeros(na, dtype=np.float32))
     logger = recording_logger(rec)
     for k, v in dict(policy=policy, q=q, policy_target=ptgt, q_target=qtgt).items():
         rec.watch_module(k, v)
@@ -341,6 +352,7 @@ def run_td3_lap(sc):
 
 # ------------------------------------------------------------------ scenarios
 VALUE_BASED = {"dqn", "nature_dqn", "ddqn", "ddqn_per", "q_learning", "sarsa", "double_q_learning", "monte_carlo", "dynaq"}
+PREFILLED = {"ddpg", "td3", "td3_lap", "sac", "td7", "dqn", "nature_dqn", "ddqn", "ddqn_per"}
 TABULAR = {"q_learning", "sarsa", "double_q_learning", "monte_carlo", "dynaq"}
 
 
@@ -372,6 +384,9 @@ def scenarios(tier, seed, routine=None):
             scs.append(dict(base, label="ES", script=[(3, "term"), (2, "trunc"), (4, "term")], budget=16, start=0, eplimit=0, warm=3, eps_switch=7))
             # the same schedule on a run that is continued from step 4: the schedule is indexed by the global step
             scs.append(dict(base, label="ESR", script=[(3, "term"), (2, "trunc"), (4, "term")], budget=16, start=4, eplimit=0, warm=3, eps_switch=9))
+    if routine in PREFILLED:
+        # a buffer that already holds 6 rows is handed to a run that starts at step 0 with a warm-up of 5 steps
+        scs.append(dict(base, label="P", script=[(3, "term"), (2, "trunc"), (4, "term")], budget=16, start=0, eplimit=0, warm=5, prefill=6))
     if tier == "thorough":
         scs += [
             dict(base, label="D", script=[(1, "term"), (1, "trunc"), (5, "term")], budget=24, start=2, eplimit=5, warm=7, cap=50),
